@@ -418,7 +418,7 @@ PROPS["C11"] = {
                        "libraries; foreign prefix). The real reader must return exactly the encoded entries for full iteration, the "
                        "derived lookup set of C02 and generated next/seek histories of C03. The checked-in sample files are read by both "
                        "implementations as a cross-check of the decoder. Exploration."),
-        "level_note": TRUST + " Not covered: blocks above 4 GiB (64-bit restart arrays) — see DESIGN.md section 9.",
+        "level_note": TRUST + " Blocks above 4 GiB (64-bit restart arrays) are covered at the block-API level by the thorough tier only (mode big4g).",
         "technique": PBT + "; differential testing against an independent encoder with generated encoding choices",
     },
     "src": "props/C11.cpp",
